@@ -81,3 +81,44 @@ c.trace("identity-only-from-a-vouching-source", _auth_trace)
 c.ensures("type_is(result, tuple) and len(result) == 2", name="identity-is-a-pair")
 c.returns(('tuple', 'str', 'opaque'))
 c.notes.append("bounded: 0..3 authentication blocks, each block fully symbolic")
+
+
+# ---- the same function for ANY number of authentication blocks (loop invariant with a ghost)
+SESSION_AUTH_ANY = ('obj', 'kmip.services.server.session.KmipSession',
+                    {'_auth_settings': ('slist', AUTH_BLOCK), '_logger': 'logger',
+                     '_address': 'opaque', '_session_time': 'opaque'})
+
+
+def _auth_trace_any(ev, outcome, exc, path, I):
+    """An identity is returned either by a plugin that vouched for the user, or from the certificate
+    alone - and then no plugin was enabled in ANY block (ghost `enabled_seen` of the loop: the
+    disjunction over all blocks scanned, tied to the function's own flag by the invariant)."""
+    if outcome != 'return':
+        return True
+    slugs_ok = [e for e in ev if e[0] == 'return' and e[1].endswith('SLUGSConnector.authenticate')]
+    cn_ok = [e for e in ev if e[0] == 'return' and e[1].endswith('get_client_identity_from_certificate')]
+    if slugs_ok:
+        return True
+    if not cn_ok:
+        return "identity returned without a vouching plugin and without reading the certificate"
+    gh = path.ghost.get('loop_ghosts', {}).get(0)
+    if gh is None:
+        return "certificate identity returned from inside the plugin scan"
+    seen = I.truth(gh['enabled_seen'])
+    import z3
+    if not (seen is False or (not isinstance(seen, bool) and path.is_valid(z3.Not(seen)))):
+        return "certificate identity returned although a plugin may have been enabled"
+    return True
+
+
+c = contract(S + "authenticate", variant="any-number-of-plugins").props('C17')
+c.args(self=SESSION_AUTH_ANY, certificate=CERT, request=REQUEST)
+c.loop(0, ["plugin_enabled == enabled_seen"],
+       ghost_init={'enabled_seen': 'False'},
+       ghost_step={'enabled_seen': "enabled_seen or (plugin_name.startswith('auth:slugs') and "
+                                   "plugin_config.get('enabled') == 'True')"},
+       havoc={'client_identity': 'opaque'})
+c.raises('exceptions.PermissionDenied')
+c.trace("identity-only-from-a-vouching-source", _auth_trace_any)
+c.ensures("type_is(result, tuple) and len(result) == 2", name="identity-is-a-pair")
+c.returns(('tuple', 'str', 'opaque'))
